@@ -168,6 +168,7 @@ CHECKS["C19"] = {
         J("e2e-prop", "c19", "TestEndToEndProp", 500, 10000, 4),
         J("e2e-prop-emptykey", "c19", "TestEndToEndPropEmptyKey", 500, 10000, 2),
         J("seedcorpus", "c19", "FuzzTagParse", None, None),
+        J("fuzz-faithful", "c19", "FuzzFaithful", None, None, tiers=["thorough"], fuzz={"target": "FuzzFaithful", "time": {"quick": "10s", "thorough": "120s"}}, timeout={"thorough": 900}),
         J("fuzz", "c19", "FuzzTagParse", None, None, tiers=["thorough"], fuzz={"target": "FuzzTagParse", "time": {"quick": "10s", "thorough": "180s"}}, timeout={"thorough": 900}),
     ],
     "assumptions": [
@@ -206,6 +207,7 @@ CHECKS["C16"] = {
         J("prefix", "c16", "TestPrefix", 800, 20000, 4),
         J("wire", "c16", "TestWire", 600, 10000, 2),
         J("retryafterset", "c16", "TestRetryAfterSet", 800, 10000, 2),
+        J("fuzz-value", "c16", "FuzzValue", None, None, tiers=["thorough"], fuzz={"target": "FuzzValue", "time": {"quick": "10s", "thorough": "120s"}}, timeout={"thorough": 900}),
     ],
     "assumptions": [
         "configured values contain only complete placeholders; defaults are drawn from text the container's default normalisation leaves unchanged; empty keys are not generated (Get(\"\") returns the whole document)",
@@ -238,6 +240,7 @@ CHECKS["C18"] = {
         J("validatestruct", "c18", "TestValidateStruct", 1000, 20000, 4),
         J("validatemulti", "c18", "TestValidateMulti", 1500, 30000, 4),
         J("validateptr", "c18", "TestValidateUnboundPointer", 1000, 20000, 2),
+        J("fuzz-expressions", "c18", "FuzzExpressions", None, None, tiers=["thorough"], fuzz={"target": "FuzzExpressions", "time": {"quick": "10s", "thorough": "120s"}}, timeout={"thorough": 900}),
     ],
     "assumptions": [
         "github.com/expr-lang/expr and go-playground/validator are trusted third parties (the reference evaluates the substituted text with the former; the constraint reimplementation is self-checked against the latter on every case)",
